@@ -6,6 +6,7 @@ package verifharness
 import (
 	"fmt"
 	"math/rand/v2"
+	"net/url"
 	"sort"
 	"strings"
 	"testing"
@@ -34,7 +35,9 @@ var (
 	c04ReqHosts = []string{"a.com", "a.com:80", "a.com:8443", "x.a.com", "y.a.com", "z.x.a.com", "z.x.a.com:80", "q.z.x.a.com", "com", "com:80", "localhost", "localhost:3000",
 		"b.com", "other", ".a.com", "a.com.", "[::1]", "[::1]:80", "[::1]:8443", "[2001:db8::1]", "[2001:db8::1]:80", "[2001:db8::2]", "[::2]:80", "10.1.2.3", "10.1.2.3:80", "xa.com", "a.comx", "drop.example"}
 	c04ReqPaths = []string{"/", "/api", "/api/", "/apix", "/api/x", "/apiary", "/apiary/", "/apiary/x", "/api/v1", "/api/v1/", "/api/v1x", "/api/v1/x", "/api/v2",
-		"/a", "/a/", "/ab", "/a/b", "/a/bc", "/a/b/c", "/a//b", "//", "//api", "/api//v1", "/x", "/x/api", "/API"}
+		"/a", "/a/", "/ab", "/a/b", "/a/bc", "/a/b/c", "/a//b", "//", "//api", "/api//v1", "/x", "/x/api", "/API",
+		// the same paths with unreserved characters percent-encoded: the request path is what they decode to
+		"/%61pi", "/%61pi/x", "/ap%69/v1/x", "/a/%62", "/%61piary"}
 )
 
 func c04Spell(rng *rand.Rand, p string) string {
@@ -143,6 +146,11 @@ func refHost(h string) string {
 
 func refRoute(svcs []c04Service, hostHeader, path string) string {
 	host := refHost(hostHeader)
+	if strings.Contains(path, "%") {
+		if dec, err := url.PathUnescape(path); err == nil {
+			path = dec
+		}
+	}
 	bound := func(h string) (out []c04Service) {
 		for _, s := range svcs {
 			if contains(s.Hosts, h) {
